@@ -11,6 +11,9 @@ package synct
 //	                      window  streaming, 200 kB stalled on the window, then Recv   → recvBufferReader (client)
 //	                      header  unary, silent server                                 → ClientStream.waitOnHeader
 //	                      recv    unary, server sent headers, then silent              → recvBufferReader (client)
+//	                      recvbody unary, a scripted raw HTTP/2 server answers with response HEADERS and a DATA frame
+//	                              holding a message header that announces 100 bytes followed by only 10, then stalls
+//	                                                                                    → recvBufferReader.readClient
 //	                      app     the application drives a stream it made with cc.NewStream itself (ops new/send/recv)
 //	rpc <timeout ns|0>    start the RPC (context.WithTimeout if > 0)  → `at:<where>` | client events
 //	new <c> <s> <h> <timeout>   (scenario app) cc.NewStream with StreamDesc{ClientStreams: c, ServerStreams: s} (0|1),
@@ -22,13 +25,15 @@ package synct
 //	srv                   → server-side events since the last `srv`
 //
 // client events:  ret@<t>:<code>     the RPC returned at virtual instant t with status code
-// `at:<where>`:   where the RPC goroutine is parked (read off its stack): pick|newstream|wquota|header|recv
+// `at:<where>`:   where the RPC goroutine is parked (read off its stack): pick|newstream|wquota|header|recv|recvbody
+//                 (recv = waiting for a message to begin, readMessageHeaderClient; recvbody = in the middle of one, readClient)
 // server events:  h@<t>:<deadline ns since start | none>   handler started, its ctx deadline
 //                 x@<t>:<DeadlineExceeded|Canceled>         handler's ctx was done at t
 //
 // All instants are ns since `start`.
 
 import (
+	"bytes"
 	"context"
 	"errors"
 	"fmt"
@@ -39,6 +44,8 @@ import (
 	"sync"
 	"time"
 
+	"golang.org/x/net/http2"
+	"golang.org/x/net/http2/hpack"
 	"google.golang.org/grpc"
 	"google.golang.org/grpc/credentials/insecure"
 	"google.golang.org/grpc/status"
@@ -106,6 +113,44 @@ func (d *deadline) handler(_ any, ss grpc.ServerStream) error {
 	return status.FromContextError(ctx.Err()).Err()
 }
 
+// dlRawPeer is a scripted HTTP/2 server: handshake, then every request is answered with response HEADERS and
+// one DATA frame that holds a gRPC message header announcing 100 bytes followed by 10 bytes; nothing more.
+func dlRawPeer(c net.Conn) {
+	defer c.Close()
+	pre := make([]byte, len(http2.ClientPreface))
+	if _, err := io.ReadFull(c, pre); err != nil {
+		return
+	}
+	fr := http2.NewFramer(c, c)
+	if fr.WriteSettings() != nil {
+		return
+	}
+	var hbuf bytes.Buffer
+	enc := hpack.NewEncoder(&hbuf)
+	for {
+		f, err := fr.ReadFrame()
+		if err != nil {
+			return
+		}
+		switch x := f.(type) {
+		case *http2.SettingsFrame:
+			if !x.IsAck() {
+				fr.WriteSettingsAck()
+			}
+		case *http2.PingFrame:
+			if !x.IsAck() {
+				fr.WritePing(true, x.Data)
+			}
+		case *http2.HeadersFrame:
+			hbuf.Reset()
+			enc.WriteField(hpack.HeaderField{Name: ":status", Value: "200"})
+			enc.WriteField(hpack.HeaderField{Name: "content-type", Value: "application/grpc"})
+			fr.WriteHeaders(http2.HeadersFrameParam{StreamID: x.StreamID, BlockFragment: hbuf.Bytes(), EndHeaders: true})
+			fr.WriteData(x.StreamID, false, append([]byte{0, 0, 0, 0, 100}, make([]byte, 10)...))
+		}
+	}
+}
+
 // render turns "k:v@t" into "k@t:v".
 func dlRender(s string) string {
 	if s == "-" {
@@ -125,7 +170,7 @@ func (d *deadline) start(f []string) string {
 		return "bad-op"
 	}
 	switch f[1] {
-	case "pick", "squota", "wquota", "window", "header", "recv", "app":
+	case "pick", "squota", "wquota", "window", "header", "recv", "app", "recvbody":
 	default:
 		return "bad-op"
 	}
@@ -140,9 +185,24 @@ func (d *deadline) start(f []string) string {
 	if d.scenario == "squota" {
 		opts = append(opts, grpc.MaxConcurrentStreams(1))
 	}
-	d.srv = grpc.NewServer(opts...)
-	d.serveWG.Add(1)
-	go func() { defer d.serveWG.Done(); d.srv.Serve(d.lis) }()
+	if d.scenario == "recvbody" {
+		d.serveWG.Add(1)
+		go func() {
+			defer d.serveWG.Done()
+			for {
+				c, err := d.lis.Accept()
+				if err != nil {
+					return
+				}
+				d.serveWG.Add(1)
+				go func() { defer d.serveWG.Done(); dlRawPeer(c) }()
+			}
+		}()
+	} else {
+		d.srv = grpc.NewServer(opts...)
+		d.serveWG.Add(1)
+		go func() { defer d.serveWG.Done(); d.srv.Serve(d.lis) }()
+	}
 	dialer := func(ctx context.Context, _ string) (net.Conn, error) {
 		if d.scenario == "pick" {
 			select {
@@ -191,6 +251,8 @@ func (d *deadline) dlRPCBody(ctx context.Context) error {
 		return d.cc.Invoke(ctx, "/v/silent", &in, &out)
 	case "recv":
 		return d.cc.Invoke(ctx, "/v/hdr", &in, &out)
+	case "recvbody":
+		return d.cc.Invoke(ctx, "/v/partial", &in, &out)
 	}
 	method := "/v/silent"
 	if d.scenario == "window" {
@@ -253,7 +315,7 @@ func dlWhere() string {
 			{"(*http2Client).NewStream", "newstream"},
 			{"(*ClientStream).waitOnHeader", "header"},
 			{"(*recvBufferReader).readMessageHeaderClient", "recv"},
-			{"(*recvBufferReader).readClient", "recv"},
+			{"(*recvBufferReader).readClient", "recvbody"},
 		} {
 			if strings.Contains(g, p[0]) {
 				return p[1]
@@ -410,7 +472,9 @@ func (d *deadline) Close() {
 	if d.bdone != nil {
 		<-d.bdone
 	}
-	d.srv.Stop()
+	if d.srv != nil {
+		d.srv.Stop()
+	}
 	d.lis.Close()
 	d.serveWG.Wait()
 }
